@@ -119,6 +119,15 @@ def _inlinable(func) -> bool:
     return ok_block(func.body, True)
 
 
+def _negate(t):
+    flip = {ast.Is: ast.IsNot, ast.IsNot: ast.Is, ast.Eq: ast.NotEq, ast.NotEq: ast.Eq, ast.In: ast.NotIn, ast.NotIn: ast.In}
+    if isinstance(t, ast.UnaryOp) and isinstance(t.op, ast.Not):
+        return t.operand
+    if isinstance(t, ast.Compare) and len(t.ops) == 1 and type(t.ops[0]) in flip:
+        return ast.copy_location(ast.Compare(left=t.left, ops=[flip[type(t.ops[0])]()], comparators=t.comparators), t)
+    return ast.copy_location(ast.UnaryOp(op=ast.Not(), operand=t), t)
+
+
 def _lower(stmts, mode, target):
     """rewrite a helper body without `return`: mode 'assign' -> the returned value is stored into copies of `target`; 'drop' -> discarded;
     'return' -> kept (the call site was `return helper(...)`)"""
@@ -149,7 +158,12 @@ def _lower(stmts, mode, target):
             body = list(st.body) + ([] if _always_returns(st.body) else copy.deepcopy(rest))
             orelse = list(st.orelse) + ([] if (st.orelse and _always_returns(st.orelse)) else copy.deepcopy(rest))
             nb, no = _lower(body, mode, target), _lower(orelse, mode, target)
-            out.append(ast.copy_location(ast.If(test=st.test, body=nb or [ast.Pass()], orelse=no), st))
+            nb = [x for x in nb if not isinstance(x, ast.Pass)]
+            if not nb and no:
+                # `if c: <nothing> else: B`  ->  `if not c: B`
+                out.append(ast.copy_location(ast.If(test=_negate(st.test), body=no, orelse=[]), st))
+            else:
+                out.append(ast.copy_location(ast.If(test=st.test, body=nb or [ast.Pass()], orelse=no), st))
             return out
         out.append(st)
     if mode == "assign" and not _always_returns(stmts):
@@ -265,7 +279,7 @@ class Inliner:
     def _static(self, q):
         return any(isinstance(d, ast.Name) and d.id == "staticmethod" for d in self.new[q][0].decorator_list)
 
-    def instantiate(self, q, call, bound_self, caller_names, mode, target):
+    def instantiate(self, q, call, bound_self, caller_names, mode, target, loads_elsewhere=frozenset()):
         func = self.new[q][0]
         self.counter += 1
         k = self.counter
@@ -318,6 +332,10 @@ class Inliner:
         keep -= arg_reads
         caller_names = set(caller_names) - keep
         for p, a in binding.items():
+            if isinstance(a, ast.Name) and a.id == p and p in assigned and p not in loads_elsewhere:
+                # the helper rebinds its parameter and the caller hands in a variable of the same name that it never reads again: the helper's statements
+                # may work on the caller's variable directly
+                continue
             if _simple(a) and p not in assigned and not ({n.id for n in ast.walk(a) if isinstance(n, ast.Name)} & (assigned - set(caller_names))):
                 mapping[p] = a
             else:
@@ -471,21 +489,25 @@ class Inliner:
                 self.failed.add(q)
                 continue
             whole = header is call
+            inside = {id(n) for n in ast.walk(st)}
+            owner_func = self.funcs[owner][0]
+            le = frozenset(n.id for n in ast.walk(owner_func) if isinstance(n, ast.Name) and isinstance(n.ctx, ast.Load) and id(n) not in inside)
+            inst = lambda *a_: self.instantiate(*a_, loads_elsewhere=le)
             if whole and isinstance(st, ast.Assign):
-                new = self.instantiate(q, call, bound_self, names, "assign", st.targets)
+                new = inst(q, call, bound_self, names, "assign", st.targets)
                 repl = new
             elif whole and isinstance(st, ast.Expr):
-                new = self.instantiate(q, call, bound_self, names, "drop", None)
+                new = inst(q, call, bound_self, names, "drop", None)
                 repl = new
             elif whole and isinstance(st, ast.Return):
-                new = self.instantiate(q, call, bound_self, names, "return", None)
+                new = inst(q, call, bound_self, names, "return", None)
                 repl = new
                 if new is not None and not _always_returns(new):
                     repl = new + [ast.copy_location(ast.Return(value=None), st)]
             else:
                 self.counter += 1
                 tmp = f"_ret_{self.new[q][0].name.strip('_')}{self.counter}"
-                new = self.instantiate(q, call, bound_self, names, "assign", [ast.Name(id=tmp, ctx=ast.Store())])
+                new = inst(q, call, bound_self, names, "assign", [ast.Name(id=tmp, ctx=ast.Store())])
                 if new is not None:
                     class R(ast.NodeTransformer):
                         def visit_Call(s, node):
@@ -551,6 +573,80 @@ class Inliner:
 # ----------------------------------------------------------------------------------------------------------------- temporaries
 def _reads(e) -> Set[str]:
     return {n.id for n in ast.walk(e) if isinstance(n, ast.Name)}
+
+
+def _chain(n) -> Optional[str]:
+    """dotted text of a Name / attribute chain (subscripts are dropped: x.a[i] -> x.a)"""
+    parts = []
+    while True:
+        if isinstance(n, ast.Attribute):
+            parts.append(n.attr)
+            n = n.value
+        elif isinstance(n, ast.Subscript):
+            n = n.value
+        elif isinstance(n, ast.Name):
+            parts.append(n.id)
+            return ".".join(reversed(parts))
+        else:
+            return None
+
+
+def _read_paths(e) -> Set[str]:
+    """maximal attribute chains read by e"""
+    out = set()
+
+    def visit(n):
+        if isinstance(n, (ast.Attribute, ast.Name)):
+            c = _chain(n)
+            if c is not None:
+                out.add(c)
+                return
+        for ch in ast.iter_child_nodes(n):
+            visit(ch)
+    visit(e)
+    return out
+
+
+def _mutation_paths(stmts):
+    """(paths stored through / mutated in place, base names passed whole to an opaque call) anywhere in stmts"""
+    paths, opaque = set(), set()
+    for st in stmts:
+        for n in ast.walk(st):
+            if isinstance(n, ast.Name) and isinstance(n.ctx, (ast.Store, ast.Del)):
+                paths.add(n.id)
+            elif isinstance(n, (ast.Subscript, ast.Attribute)) and isinstance(getattr(n, "ctx", None), (ast.Store, ast.Del)):
+                c = _chain(n)
+                if c:
+                    paths.add(c)
+            elif isinstance(n, ast.Call):
+                f = n.func
+                nm = f.attr if isinstance(f, ast.Attribute) else f.id if isinstance(f, ast.Name) else ""
+                if isinstance(f, ast.Attribute) and (nm.endswith("_") or nm in ("append", "extend", "pop", "update", "clear", "remove", "insert", "setdefault", "sort", "reverse", "backward")):
+                    c = _chain(f.value)
+                    if c:
+                        paths.add(c)
+                tensor_lib = isinstance(f, ast.Attribute) and _chain(f.value) in ("torch", "np", "math", "torch.linalg")
+                method_of_value = isinstance(f, ast.Attribute) and not (isinstance(f.value, ast.Name) and f.value.id in ("self", "cls")) and not nm.endswith("_")
+                if not tensor_lib and not method_of_value:
+                    # a repository function / method of self may change whatever it is handed
+                    for a in list(n.args) + [k.value for k in n.keywords]:
+                        c = _chain(a) if isinstance(a, (ast.Name, ast.Attribute)) else None
+                        if c:
+                            opaque.add(c)
+                    if isinstance(f, ast.Attribute) and isinstance(f.value, ast.Name) and f.value.id in ("self", "cls"):
+                        opaque.add(f.value.id)
+    return paths, opaque
+
+
+def _conflict(read_paths, mut_paths, opaque) -> bool:
+    for r in read_paths:
+        for m in mut_paths:
+            if r == m or r.startswith(m + ".") or m.startswith(r + "."):
+                return True
+        for o in opaque:
+            if r == o or r.startswith(o + "."):
+                return True
+    return False
 
 
 def _call_purity(e):
@@ -649,9 +745,25 @@ def _substitute_once(func, ref_locals) -> bool:
             muts = _mutations(span)
             reads = _reads(expr)
             # a use inside a loop body sees later iterations' mutations as well: handled because the whole loop statement is in `span`
-            if (reads & muts) or v in muts:
-                # allowed when the only mutation is inside the *using* statement itself after evaluation? keep it simple: refuse
-                continue
+            alias = isinstance(expr, (ast.Name, ast.Attribute)) and _simple(expr)
+            if alias:
+                # a plain alias of an object: in-place changes through either name are the same change; only rebinding breaks the equivalence
+                rebound = {n.id for s_ in span for n in ast.walk(s_) if isinstance(n, ast.Name) and isinstance(n.ctx, (ast.Store, ast.Del))}
+                attr_rebound = {ast.unparse(n) for s_ in span for n in ast.walk(s_) if isinstance(n, ast.Attribute) and isinstance(n.ctx, (ast.Store, ast.Del))}
+                if (reads & rebound) or v in rebound or ast.unparse(expr) in attr_rebound or any(ast.unparse(expr).startswith(a + ".") for a in attr_rebound):
+                    continue
+            else:
+                mp, opq = _mutation_paths(span)
+                # loop counters of `for k in range(...)` are integers: handing them to a call cannot change them
+                opq = opq - {n.target.id for n in ast.walk(func) if isinstance(n, ast.For) and isinstance(n.target, ast.Name) and isinstance(n.iter, ast.Call)
+                             and isinstance(n.iter.func, ast.Name) and n.iter.func.id == "range"}
+                one_next = len(span) == 1 and isinstance(span[0], (ast.Expr, ast.Assign, ast.AugAssign, ast.Return)) and len(uses) == 1
+                fresh_scalar = purity == "pure" and isinstance(expr, (ast.BinOp, ast.Compare, ast.BoolOp, ast.UnaryOp, ast.IfExp))
+                if v in mp or (v in opq and not fresh_scalar):
+                    continue
+                if _conflict(_read_paths(expr), mp, opq) and not one_next:
+                    # (a single use in the very next simple statement evaluates the expression before that statement's own effect, exactly as the temporary did)
+                    continue
             if purity == "impure":
                 # exactly one use: it must be in the first statement of the span that has any call (evaluation order of side effects)
                 first_call = next((k for k, s in enumerate(span) if any(isinstance(n, ast.Call) for n in ast.walk(s))), None)
@@ -670,6 +782,67 @@ def _substitute_once(func, ref_locals) -> bool:
     return False
 
 
+def coalesce_copies(func, ref_locals: Set[str]) -> bool:
+    """`t = E ... X = t` with t a new single-assignment local and X untouched in between: t is renamed to X and the copy dropped"""
+    changed = False
+    for _ in range(12):
+        assigned: Dict[str, int] = {}
+        for n in ast.walk(func):
+            if isinstance(n, ast.Name) and isinstance(n.ctx, (ast.Store, ast.Del)):
+                assigned[n.id] = assigned.get(n.id, 0) + 1
+        done = False
+        for blk in _blocks(func):
+            for j, st in enumerate(blk):
+                if not (isinstance(st, ast.Assign) and len(st.targets) == 1 and isinstance(st.targets[0], ast.Name) and isinstance(st.value, ast.Name)):
+                    continue
+                X, t = st.targets[0].id, st.value.id
+                if t in ref_locals or assigned.get(t, 0) != 1 or X == t:
+                    continue
+                # definition of t earlier in the same block
+                i = next((k for k in range(j - 1, -1, -1) if isinstance(blk[k], ast.Assign) and any(isinstance(n, ast.Name) and n.id == t and isinstance(n.ctx, ast.Store)
+                                                                                                        for tg in blk[k].targets for n in ast.walk(tg))), None)
+                if i is None:
+                    continue
+                between = blk[i:j]
+                if any(isinstance(n, ast.Name) and n.id == X for s_ in between for n in ast.walk(s_)):
+                    continue
+                # every use of t lies in this block from i on
+                all_uses = [n for n in ast.walk(func) if isinstance(n, ast.Name) and n.id == t]
+                here = [n for s_ in blk[i:] for n in ast.walk(s_) if isinstance(n, ast.Name) and n.id == t]
+                if len(all_uses) != len(here):
+                    continue
+                # X must not be reassigned later while t is still used
+                later_t_use = [k for k in range(j + 1, len(blk)) if any(isinstance(n, ast.Name) and n.id == t for n in ast.walk(blk[k]))]
+                if later_t_use:
+                    lastu = later_t_use[-1]
+                    if any(isinstance(n, ast.Name) and n.id == X and isinstance(n.ctx, (ast.Store, ast.Del)) for s_ in blk[j + 1:lastu + 1] for n in ast.walk(s_)):
+                        continue
+                for n in here:
+                    n.id = X
+                del blk[j]
+                done = changed = True
+                break
+            if done:
+                break
+        if not done:
+            break
+    return changed
+
+
+def _blocks(node):
+    for fld in ("body", "orelse", "finalbody"):
+        blk = getattr(node, fld, None)
+        if isinstance(blk, list) and blk and isinstance(blk[0], ast.stmt):
+            yield blk
+            for st in blk:
+                if not isinstance(st, (ast.FunctionDef, ast.AsyncFunctionDef, ast.ClassDef)):
+                    yield from _blocks(st)
+    for h in getattr(node, "handlers", []) or []:
+        yield h.body
+        for st in h.body:
+            yield from _blocks(st)
+
+
 def normalize_tree(tree, rel: str) -> bool:
     inv = inventory().get(rel)
     if inv is None:
@@ -682,6 +855,8 @@ def normalize_tree(tree, rel: str) -> bool:
             continue
         cur = local_names(func)
         if cur - set(ref):
+            if coalesce_copies(func, set(ref)):
+                changed = True
             if substitute_temporaries(func, set(ref)):
                 changed = True
     if changed:
